@@ -21,11 +21,16 @@ type c16Op struct {
 type c16Case struct {
 	Cfg LimitCfg `json:"cfg"`
 	Ops []c16Op  `json:"ops"`
+	// PollEvery: how often the harness itself asks the outermost wrapper for its estimate: 0 = around every operation,
+	// k = after every k-th operation only, 1000 = at the very end only. (Reading is not neutral for a wrapper that
+	// caches what it last reported; the estimate used to judge notifications is always the algorithm's own.)
+	PollEvery int `json:"poll_every,omitempty"`
 }
 
 func genC16(t *rapid.T) c16Case {
 	c := c16Case{Cfg: genLimitCfg(t, []string{"aimd", "vegas", "gradient", "gradient2", "settable", "fixed"}, true)}
 	genUnsetSafe(t, &c.Cfg)
+	c.PollEvery = rapid.SampledFrom([]int{0, 0, 1, 3, 7, 1000}).Draw(t, "pollEvery")
 	n := rapid.IntRange(1, 120).Draw(t, "nops")
 	regs := 0
 	for i := 0; i < n; i++ {
@@ -92,7 +97,10 @@ func runC16(_ *testing.T, c c16Case) kit.Outcome {
 	changes, ups, downs := 0, 0, 0
 	lateReg := false
 	for i, op := range c.Ops {
-		before := b.Outer.EstimatedLimit()
+		before := b.Inner.EstimatedLimit()
+		if c.PollEvery == 0 {
+			before = b.Outer.EstimatedLimit()
+		}
 		marks := make([]int, len(ls))
 		for j, l := range ls {
 			marks[j] = l.calls
@@ -121,9 +129,11 @@ func runC16(_ *testing.T, c c16Case) kit.Outcome {
 			inf = op.S.inflight(before)
 			b.Outer.OnSample(op.S.Start, op.S.RTT, inf, op.S.Drop)
 		}
-		after := b.Outer.EstimatedLimit()
-		if in := b.Inner.EstimatedLimit(); in != after {
-			return kit.Viol("wrapper:estimate", "op %d: wrapper reports %d but its delegate %d", i, after, in)
+		after := b.Inner.EstimatedLimit()
+		if c.PollEvery == 0 || (c.PollEvery < 1000 && (i+1)%c.PollEvery == 0) || i == len(c.Ops)-1 {
+			if out := b.Outer.EstimatedLimit(); out != after {
+				return kit.Viol("wrapper:estimate", "op %d: wrapper reports %d but its delegate %d", i, out, after)
+			}
 		}
 		if op.K == "sample" && len(folds) > 0 && b.Tap != nil && !foldsAmbiguous {
 			cur := &Sample{Start: op.S.Start, RTT: op.S.RTT, Inf: inf, Drop: op.S.Drop}
